@@ -457,7 +457,9 @@ func TestVerifC04(t *testing.T) {
 	{
 		rng := vk.NewRand(vk.Mix(r.Seed, 0x0FF1))
 		small := func(k uint64) vContSpec { return c04Cont(k, "arrSmall", containerArray, []uint16{1, 5, 9}) }
-		runC := func(k uint64) vContSpec { return c04Cont(k, "run2", containerRun, append(c04Seq(10, 20, 1), c04Seq(100, 65535, 1)...)) }
+		runC := func(k uint64) vContSpec {
+			return c04Cont(k, "run2", containerRun, append(c04Seq(10, 20, 1), c04Seq(100, 65535, 1)...))
+		}
 		full := func(k uint64, enc byte) vContSpec { return c04Cont(k, "full", enc, c04Seq(0, 65535, 1)) }
 		var cases []*c04Case
 		add := func(form string, conts ...vContSpec) {
